@@ -51,7 +51,8 @@ PROBES: dict = {
     # ---- C03
     "len-folded-stale": ("C03", "len-after-nested-mutation", [
         PROG([ASSIGN("xs", LIST(I(1)))], [APPEND("xs", AREAD()), WRITE(CALL("len", V("xs")))], ain=[5, 6, 7], npass=3, pid="probe-len-loop"),
-        PROG([ASSIGN("xs", LIST(I(1), I(2))), IF([(CMP(AREAD(), (">", I(0))), [APPEND("xs", I(9))])]), WRITE(CALL("len", V("xs")))], ain=[0], pid="probe-len-branch")]),
+        PROG([ASSIGN("xs", LIST(I(1), I(2))), IF([(CMP(AREAD(), (">", I(0))), [APPEND("xs", I(9))])]), WRITE(CALL("len", V("xs")))], ain=[0], pid="probe-len-branch"),
+        PROG([ASSIGN("s", S("ab"))], [WRITE(CALL("len", V("s"))), ASSIGN("s", BIN("+", V("s"), S("x")))], npass=3, pid="probe-len-str-loop")]),
     # ---- C02
     "name-retyped-first-assignment-wins": ("C02", "name-retyped", [
         PROG([ASSIGN("x", I(1)), ASSIGN("x", F(2.5)), WRITE(V("x"))], pid="probe-retype-int-float"),
